@@ -447,10 +447,14 @@ func (s *State) impliedGEBasic(l Lin) bool {
 			ges = append(ges, f)
 		}
 	}
+	// integer division atoms q = x/c (x >= 0) satisfy c*q <= x <= c*q + c-1
+	ges = append(ges, s.divisionFacts(l, ges)...)
 	for _, f := range ges {
-		d := l.add(f.L, -1)
-		if r := s.rangeOfLin(d, 0); !r.Empty() && r.Lo() >= 0 {
-			return true
+		for _, k := range factMultipliers(l, f.L) {
+			d := l.add(f.L, -k)
+			if r := s.rangeOfLin(d, 0); !r.Empty() && r.Lo() >= 0 {
+				return true
+			}
 		}
 	}
 	if len(ges) <= 24 {
@@ -460,15 +464,20 @@ func (s *State) impliedGEBasic(l Lin) bool {
 				all = append(all, f)
 			}
 		}
+		all = append(all, ges...)
 		for _, f := range ges {
-			d := l.add(f.L, -1)
-			for _, g := range all {
-				if !shareAtom(d, g.L) {
-					continue
-				}
-				d2 := d.add(g.L, -1)
-				if r := s.rangeOfLin(d2, 0); !r.Empty() && r.Lo() >= 0 {
-					return true
+			for _, k := range factMultipliers(l, f.L) {
+				d := l.add(f.L, -k)
+				for _, g := range all {
+					if !shareAtom(d, g.L) {
+						continue
+					}
+					for _, k2 := range factMultipliers(d, g.L) {
+						d2 := d.add(g.L, -k2)
+						if r := s.rangeOfLin(d2, 0); !r.Empty() && r.Lo() >= 0 {
+							return true
+						}
+					}
 				}
 			}
 		}
@@ -510,6 +519,64 @@ func (s *State) impliedGECongruent(l Lin) bool {
 		}
 	}
 	return false
+}
+
+// factMultipliers: the positive multiples k of fact f worth subtracting from
+// goal l (k = 1, and every k that cancels a shared atom exactly).
+func factMultipliers(l, f Lin) []int64 {
+	ks := []int64{1}
+	for a, cf := range f.T {
+		cl, ok := l.T[a]
+		if !ok || cf == 0 || cl%cf != 0 {
+			continue
+		}
+		k := cl / cf
+		if k > 1 && k <= 64 {
+			dup := false
+			for _, x := range ks {
+				if x == k {
+					dup = true
+				}
+			}
+			if !dup {
+				ks = append(ks, k)
+			}
+		}
+	}
+	return ks
+}
+
+// divisionFacts derives, for every atom q = x / c (c a positive constant, x
+// provably non-negative) mentioned by the goal or by a fact sharing atoms
+// with it, the facts x - c*q >= 0 and c*q + (c-1) - x >= 0.
+func (s *State) divisionFacts(l Lin, ges []Fact) []Fact {
+	var out []Fact
+	seen := map[string]bool{}
+	consider := func(e *Expr) {
+		if e == nil || seen[e.Key] || e.Op != "bin" || e.binOp() != "/" || len(e.Args) != 2 {
+			return
+		}
+		seen[e.Key] = true
+		c, isC := e.Args[1].IsConst()
+		if !isC || c <= 0 || c > 4096 {
+			return
+		}
+		x := s.linOf(e.Args[0])
+		if r := s.rangeOfLin(x, 1); r.Empty() || r.Lo() < 0 {
+			return
+		}
+		q := linAtom(e)
+		out = append(out, Fact{L: x.add(q, -c)}, Fact{L: q.scale(c).add(linConst(c-1), 1).add(x, -1)})
+	}
+	for _, e := range l.E {
+		consider(e)
+	}
+	for _, f := range ges {
+		for _, e := range f.L.E {
+			consider(e)
+		}
+	}
+	return out
 }
 
 func shareAtom(a, b Lin) bool {
